@@ -101,6 +101,9 @@ class ExprMixin:
             r = self.coerce(sv, inner, st)
             return r
         if sv.ty == ty:
+            if ty.kind == "tuple" and sv.t is None and sv.items is not None and \
+                    all(i.t is not None and i.none is None and i.ty.kind in ("int", "bool", "str", "real", "dict", "list", "obj") for i in sv.items):
+                sv = SV(sv.ty, tuple_term(sv), items=sv.items)  # storable in a list
             return sv
         if ty.kind == "val":
             return SV(VAL, box(sv))
@@ -120,7 +123,10 @@ class ExprMixin:
         if sv.ty.is_ref and ty.is_ref and sv.ty.kind == ty.kind:
             return SV(ty, sv.t, sv.none, py=sv.py)  # e.g. dict[str,val] vs declared alias
         if sv.ty.kind == "tuple" and ty.kind == "tuple" and len(sv.items) == len(ty.args):
-            return mk_tuple([self.coerce(i, t, st) for i, t in zip(sv.items, ty.args)])
+            r = mk_tuple([self.coerce(i, t, st) for i, t in zip(sv.items, ty.args)])
+            if all(i.t is not None and i.none is None and i.ty.kind in ("int", "bool", "str", "real", "dict", "list", "obj") for i in r.items):
+                r.t = tuple_term(r)  # storable in a list
+            return r
         raise Unsupported("cannot coerce %r to %r" % (sv.ty, ty))
 
     def fresh_const(self, base, ty):
@@ -585,6 +591,8 @@ class ExprMixin:
         raise Unsupported("subscript on %r" % base.ty)
 
     def wrap(self, term, ty):
+        if ty.kind == "tuple":
+            return tuple_from_term(term, ty)
         if ty.kind == "val":
             return SV(VAL, term)
         if ty.kind == "opt":
@@ -671,7 +679,9 @@ class ExprMixin:
             ety = VAL
         else:
             ety = items[0].ty if all(i.ty == items[0].ty and (i.none is None or i.ty.is_ref) for i in items) else VAL
-            if ety.kind in ("tuple", "none", "fun"):
+            if ety.kind == "tuple" and all(a.kind in ("int", "bool", "str", "real", "dict", "list", "obj") for a in ety.args):
+                pass  # list of plain tuples
+            elif ety.kind in ("tuple", "none", "fun"):
                 ety = VAL
         return self.new_list(st, ety, items)
 
